@@ -338,6 +338,31 @@ def path_records(body, limit=20000, paths=None):
     return recs
 
 
+def _on_ok_arm_bool(body, call, bb):
+    """`if r.is_err() { .. } else { <bb> }` / `if r.is_ok() { <bb> }` where r is the result of `call`"""
+    for b in sorted(body.reachable()):
+        t = body.term(b)
+        if t["k"] != "switch" or t.get("dty") != "bool":
+            continue
+        subj = strip_expr(body.expr(t["discr"]))
+        neg = False
+        while subj[0] == "unop" and subj[1] == "Not":
+            neg = not neg
+            subj = strip_expr(subj[2])
+        if subj[0] != "call" or subj[1].split("::")[-1] not in ("is_ok", "is_err") or "Result" not in subj[1]:
+            continue
+        if not any(len(x) > 3 and x[3] is call for x in expr_calls(subj[2][0])):
+            continue
+        ft = bool_switch_true_target(body, b)
+        if not ft:
+            continue
+        want_true = (subj[1].split("::")[-1] == "is_ok") != neg
+        good, other = (ft[1], ft[0]) if want_true else (ft[0], ft[1])
+        if body.dominates(good, bb) and not body.dominates(other, bb):
+            return True
+    return False
+
+
 def on_ok_arm(body, call, bb):
     """Is block `bb` reachable only through the success arm of `call`'s Result?  Accepts `call(..)?`
     (Continue arm of Try::branch) and a direct `match call(..) { Ok(..) => .., Err(..) => .. }`."""
@@ -359,7 +384,7 @@ def on_ok_arm(body, call, bb):
                 bad_t = [targets.get(v2, otherwise) for v2, n2 in names.items() if n2 in ("Err", "Break")]
                 if body.dominates(t, bb) and not any(body.dominates(x, bb) for x in bad_t if x != t):
                     return True
-    return False
+    return _on_ok_arm_bool(body, call, bb)
 
 
 def controlling_switches(body, bb):
@@ -878,4 +903,23 @@ def immediate_line_emptied_by(F, body):
             if any(sfx(x.callee, "Program::set_and_goto_immediate_line") and x.bb in pd and len(x.args) > 1 and
                    "Vec::new" in show(cb.expr(x.args[1])) for x in cb.calls()):
                 out.append(c)
+    return out
+
+
+def line_membership_tests(F):
+    """Paths of the functions that answer "is this line number stored": ProgramLines::has itself and local wrappers that return
+    exactly `<lines>.has(param)` (Program::has_line_number)."""
+    out = set()
+    for p, b in F.bodies.items():
+        if b.crate != "abasic_core":
+            continue
+        if p.endswith("program_lines::ProgramLines::has"):
+            out.add(p)
+            continue
+        if b.local_ty(0) != "bool" or len(b.calls()) != 1:
+            continue
+        c = b.calls()[0]
+        if c.callee.endswith("program_lines::ProgramLines::has") and c.dest["local"] == 0 and not c.dest["proj"] and \
+                len(c.args) > 1 and strip_expr(b.expr(c.args[1]))[0] == "param":
+            out.add(p)
     return out
